@@ -7,7 +7,11 @@ use biodivine_lib_param_bn::BooleanNetwork;
 use biodivine_lib_param_bn::biodivine_std::traits::Set;
 use biodivine_lib_param_bn::symbolic_async_graph::{GraphColoredVertices, SymbolicAsyncGraph};
 
-pub const ALL_MODELS: [&str; 17] = [
+/// Bundled models that load and evaluate within the child-process budget (120 s, 6 GB). The other
+/// bundled large coloured models (tacas1, tacas4, tacas5, cav2..cav6) either cannot be loaded with the
+/// pinned lib-param-bn, exhaust the memory budget while the graph is built, or do not finish a single
+/// operator in time; they are not part of the workload (see DESIGN.md §10).
+pub const ALL_MODELS: [&str; 9] = [
     "myeloid",
     "110_9v_parametrized",
     "110_9v_concrete",
@@ -15,16 +19,8 @@ pub const ALL_MODELS: [&str; 17] = [
     "model-022-17var-5in",
     "tacas2",
     "tacas3",
-    "tacas4",
-    "tacas5",
-    "tacas1",
-    "cav1",
-    "cav2",
-    "cav3",
-    "cav4",
-    "cav6",
-    "cav5",
     "115_35v_parametrized",
+    "cav1",
 ];
 
 pub struct BigModel {
